@@ -181,6 +181,53 @@ type condPol struct {
 func pathConds(root ast.Node, target ast.Node) []condPol {
 	var out []condPol
 	chain := enclosingStmts(root, target)
+	// code after `if c { ...; return }` (no else) in the same statement list runs only when c is false
+	endsFlow := func(b *ast.BlockStmt) bool {
+		if len(b.List) == 0 {
+			return false
+		}
+		switch st := b.List[len(b.List)-1].(type) {
+		case *ast.ReturnStmt:
+			return true
+		case *ast.BranchStmt:
+			return st.Tok == token.CONTINUE || st.Tok == token.BREAK || st.Tok == token.GOTO
+		case *ast.ExprStmt:
+			if call, ok := st.X.(*ast.CallExpr); ok {
+				if id, ok := call.Fun.(*ast.Ident); ok && id.Name == "panic" {
+					return true
+				}
+			}
+		}
+		return false
+	}
+	for i, n := range chain {
+		var list []ast.Stmt
+		switch b := n.(type) {
+		case *ast.BlockStmt:
+			list = b.List
+		case *ast.CaseClause:
+			list = b.Body
+		}
+		if list == nil || i+1 >= len(chain) {
+			continue
+		}
+		for _, st := range list {
+			if ast.Node(st) == chain[i+1] {
+				break
+			}
+			if is, ok := st.(*ast.IfStmt); ok && is.Else == nil && is.Init == nil && endsFlow(is.Body) {
+				cond, flip := is.Cond, false
+				for {
+					u, isNot := ast.Unparen(cond).(*ast.UnaryExpr)
+					if !isNot || u.Op != token.NOT {
+						break
+					}
+					cond, flip = ast.Unparen(u.X), !flip
+				}
+				out = append(out, condPol{cond, flip})
+			}
+		}
+	}
 	for i, n := range chain {
 		is, ok := n.(*ast.IfStmt)
 		if !ok || i+1 >= len(chain) {
